@@ -853,7 +853,7 @@ matrix_ass_subscr(matrix* self, PyObject* args, PyObject* val)
       val = (PyObject *)Matrix_NewFromSequence(val, MAT_ID(self));
 
     if (!val)
-      PY_ERR_INT(PyExc_NotImplementedError, "invalid type in assignment");
+      PY_ERR_INT(PyExc_TypeError, "invalid type in assignment");
 
     decref_val = 1;
   }
